@@ -330,11 +330,16 @@ fn main() {
             let (t, ops) = vplmut::mutate(&mut rng, text, MAX_INPUT);
             v.push(Case { origin: origin.clone(), ops, text: t });
         }
-        // a few fixed boundary inputs in the first shard
-        if s == 0 {
-            for t in ["", "\n", "stream X = Y", "stream X = \nfoo", "a\nb", "stream X = Y\n    .where(", "\u{e9}", "fn f():\n    return (", "for i in 0..2:\n    stream S{i} = E\n        .where(x >"] {
-                v.push(Case { origin: "fixed".into(), ops: vec![], text: t.to_string() });
-            }
+        shard_cases.push(v);
+    }
+    // one more shard with fixed boundary inputs; the last one is the nesting-at-the-limit input in
+    // type position (2 map levels + 22 array levels = 24 = MAX_NESTING_DEPTH), placed last
+    // because it is expected to run into the time cap
+    {
+        let mut v = vec![];
+        let deep_type = format!("let x: {{str: {{str: {}int\n", "[".repeat(22));
+        for t in ["", "\n", "stream X = Y", "stream X = \nfoo", "a\nb", "stream X = Y\n    .where(", "\u{e9}", "fn f():\n    return (", "for i in 0..2:\n    stream S{i} = E\n        .where(x >", deep_type.as_str()] {
+            v.push(Case { origin: "fixed".into(), ops: vec![], text: t.to_string() });
         }
         shard_cases.push(v);
     }
@@ -426,6 +431,9 @@ fn main() {
                             let (located, bad) = judge_location(&case.text, j);
                             if located {
                                 rep.add("errors_with_location", 1);
+                                // how many located errors fall in each class (the identical-text class is
+                                // where locations can be expected to be exact)
+                                rep.add(&format!("errors_with_location_{}", preprocess_class(&case.text)), 1);
                                 rep.nontrivial(&case.text);
                                 if rep.samples.len() < 3 && !case.ops.is_empty() && case.text.len() < 600 {
                                     rep.sample(json!({"origin": case.origin, "mutations": case.ops, "input": case.text, "error": j}));
